@@ -7,6 +7,10 @@ pub fn insert_op2(_g: &mut G, id: Id, k: KindTag, script: Script) -> Op {
     match k {
         KindTag::Executor => Op::InsertExecutor { id, script },
         KindTag::Stream => Op::InsertStream { id, script },
+        KindTag::Transient => {
+            let child = if _g.rng.chance(2, 3) { ChildSpec::Sock } else { ChildSpec::Timer(Deadline::In(_g.rng.range(0, 20) * crate::gen::MS)) };
+            Op::InsertTransient { id, child, from_default: _g.rng.chance(1, 5), script }
+        }
         _ => Op::InsertPing { id, script },
     }
 }
@@ -39,6 +43,12 @@ pub fn cause_op2(g: &mut G, id: Id, k: KindTag) -> Option<Op> {
             }
         }
         KindTag::Stream => Some(if g.rng.chance(1, 8) { Op::StreamEnd(id) } else { Op::StreamPush(id) }),
+        KindTag::Transient => Some(match g.rng.below(10) {
+            0 | 1 => Op::TrRemove(id),
+            2 | 3 => Op::TrReplace(id, if g.rng.chance(2, 3) { ChildSpec::Sock } else { ChildSpec::Timer(Deadline::In(g.rng.range(0, 20) * crate::gen::MS)) }),
+            4 => Op::TrMap(id),
+            _ => Op::PeerWrite(id, 1),
+        }),
         _ => None,
     }
 }
